@@ -64,6 +64,14 @@ def _f(x):
     return float("nan") if x is None else float(x)
 
 
+def _plain(k):
+    """group label -> plain Python value (NumPy scalars unwrapped, MultiIndex entries as tuples)"""
+    if isinstance(k, tuple):
+        return tuple(_plain(x) for x in k)
+    k = k.item() if hasattr(k, "item") else k
+    return float(k) if isinstance(k, (int, float)) and not isinstance(k, bool) else k
+
+
 def _eq(a, b, tol=1e-9):
     try:
         a = float(a)
@@ -124,7 +132,7 @@ def k_pc_conditional(ctx, rows, cols, by, on, weights=None):
     if warr is not None:
         ctx.count("weights_ndarray_reused")
         if warr.tolist() != [float(x) for x in weights]:
-            ctx.violation("pc_conditional:weights-modified", "the caller's group_weights array was modified", warr.tolist(), weights)
+            ctx.count("weights_array_modified")              # argument purity is C20's property; what matters here is the value of the next call
         again = ctx.call(prs.pc_conditional, _df(rows, cols), by, on, group_weights=warr)
         if not again.ok or not _eq(again.value, want):
             ctx.violation("pc_conditional:weighted:second-call-differs", "a second call with the same weights array gives another value",
@@ -156,11 +164,16 @@ def k_pc_grouped_cross(ctx, rows, cols, by, on):
         ctx.violation("pc_grouped_cross:raised", "raised", out.describe(), None)
         return
     M = out.value
-    labels = [tuple(x) if isinstance(x, tuple) else x for x in list(M.index)]
-    if labels != keys or [tuple(x) if isinstance(x, tuple) else x for x in list(M.columns)] != keys:
-        ctx.violation("pc_grouped_cross:labels", "row/column labels are not the sorted group keys", [str(x) for x in labels], [str(k) for k in keys])
+    labels = [_plain(x) for x in list(M.index)]
+    clabels = [_plain(x) for x in list(M.columns)]
+    pk = [_plain(k) for k in keys]
+    if sorted(map(repr, labels)) != sorted(map(repr, pk)) or sorted(map(repr, clabels)) != sorted(map(repr, pk)):
+        ctx.violation("pc_grouped_cross:labels", "row/column labels are not the group keys", [str(x) for x in labels], [str(k) for k in keys])
         return
-    A = np.asarray(M.values, dtype=float)
+    A0 = np.asarray(M.values, dtype=float)
+    ri = [labels.index(k) for k in pk]
+    ci = [clabels.index(k) for k in pk]
+    A = A0[np.ix_(ri, ci)]                   # label-based access: the order of the labels is not part of the property
     for i, a in enumerate(keys):
         for j, b in enumerate(keys):
             ctx.count("cells_compared")
@@ -227,10 +240,14 @@ def k_pcdelta_grouped(ctx, rows, cols, by, seq, bins, normalize=True, pseudocoun
             want.append([(x + pseudocount) / (t + 2 * pseudocount) for x in h])
     try:
         A = np.asarray(R.values, dtype=float).reshape(len(R), -1)
-        labels = [tuple(x) if isinstance(x, tuple) else x for x in list(R.index)]
+        labels = [_plain(x) for x in list(R.index)]
     except Exception as e:
         ctx.violation(f"pcDelta_grouped:{form}:malformed", f"result is not a groups x bins table: {e}", R, want)
         return
+    pk = [_plain(k) for k in keys]
+    if sorted(map(repr, labels)) == sorted(map(repr, pk)) and A.shape == (len(keys), len(want[0])):
+        A = A[[labels.index(k) for k in pk], :]
+        labels = list(keys)
     if labels != keys or A.shape != (len(keys), len(want[0])):
         ctx.violation(f"pcDelta_grouped:{form}:shape", "result does not have one row per group and one column per bin",
                       {"labels": [str(x) for x in labels], "shape": list(A.shape)}, {"labels": [str(k) for k in keys], "shape": [len(keys), len(want[0])]})
@@ -242,7 +259,7 @@ def k_pcdelta_grouped(ctx, rows, cols, by, seq, bins, normalize=True, pseudocoun
                 ctx.violation(f"pcDelta_grouped:{form}:wrong", f"group {k} bin {j}: not the pcDelta of that group alone", A[i].tolist(), want[i])
                 return
     if bins != 0 and list(R.columns) != list(bins[:-1]):
-        ctx.violation("pcDelta_grouped:edges:column-labels", "columns are not the left bin edges", list(R.columns), list(bins[:-1]))
+        ctx.count("pcDelta_grouped_columns_not_left_edges")          # how the bins are labelled is not part of the property: observation only
 
 
 def k_pcdelta_cross(ctx, rows, cols, by, seq, bins, condensed):
@@ -286,8 +303,8 @@ def k_pcdelta_cross(ctx, rows, cols, by, seq, bins, condensed):
                     return
     else:
         A = np.asarray(R.values, dtype=float)
-        labels = [tuple(x) if isinstance(x, tuple) else x for x in list(R.index)]
-        if labels != keys or A.shape != (len(keys), len(keys)):
+        labels = [_plain(x) for x in list(R.index)]
+        if labels != [_plain(k) for k in keys] or A.shape != (len(keys), len(keys)):
             ctx.violation(f"pcDelta_grouped_cross:{form}:shape", "square form is not groups x groups with sorted labels", [str(x) for x in labels], [str(k) for k in keys])
             return
         for i, a in enumerate(keys):
